@@ -279,6 +279,40 @@ class _SimRaw(io.RawIOBase):
                     self._disk._file_state(self._path, 'complete', self.nbytes)
 
 
+class _SimReader(object):
+    """Proxy around a real file opened for reading: the armed `read` fault fires inside read()."""
+
+    def __init__(self, disk, path, fh):
+        self._disk, self._path, self._fh = disk, path, fh
+
+    def _maybe(self):
+        f = self._disk._hit('read')
+        if f:
+            self._disk._raise(f, 'read', self._path)
+
+    def read(self, *a):
+        self._maybe()
+        return self._fh.read(*a)
+
+    def readline(self, *a):
+        self._maybe()
+        return self._fh.readline(*a)
+
+    def __iter__(self):
+        self._maybe()
+        return iter(self._fh)
+
+    def __enter__(self):
+        return self
+
+    def __exit__(self, *a):
+        self._fh.close()
+        return False
+
+    def __getattr__(self, name):
+        return getattr(self._fh, name)
+
+
 class _ScandirList(object):
     def __init__(self, entries):
         self._it = iter(entries)
@@ -320,6 +354,7 @@ class SimDisk(object):
         self.files = {}            # relpath -> (state, nbytes)
         self.write_seq = []        # relpaths in the order they were opened for writing
         self.calls_total = collections.Counter()
+        self.vanished = []
         self.installed = False
         self._orig = {}
 
@@ -489,9 +524,24 @@ class SimDisk(object):
             writing = any(c in mode for c in 'wax+')
             if not writing:
                 f = disk._hit('open_r')
-                if f:
+                if f and f['kind'] == 'VANISH':
+                    # the file really disappears between the directory listing and the open (concurrent deletion)
+                    tag = 'VANISH@open_r'
+                    disk.fired[tag] += 1
+                    disk.fired_in_op.append(tag)
+                    disk.armed = None
+                    disk.vanished.append(disk.rel(file))
+                    disk.files.pop(disk.rel(file), None)
+                    try:
+                        o['remove'](file)
+                    except OSError:
+                        pass
+                elif f:
                     disk._raise(f, 'open_r', file)
-                return o['open'](file, mode, buffering, encoding, errors, newline, closefd, opener)
+                fh = o['open'](file, mode, buffering, encoding, errors, newline, closefd, opener)
+                if disk.armed and disk.armed.get('call') == 'read':
+                    return _SimReader(disk, file, fh)
+                return fh
             f = disk._hit('open_w')
             if f:
                 disk._raise(f, 'open_w', file)
